@@ -629,7 +629,7 @@ func rulePolarity(c *Ctx) {
 			}
 			key := fmt.Sprintf("polarity:add#%d", n)
 			c.check(v == want, key, at, fmt.Sprintf("truncating operand %d sets sticky %+d", opnd, want),
-				fmt.Sprintf("Decimal.add: a block that truncates the %s operand sets the sticky flag to %+d; the exact value then lies on the wrong side of the computed one (must be %+d: dropping digits of the first operand makes the true result larger in magnitude, of the second smaller)", []string{"first", "second"}[opnd], v, want), "C01")
+				fmt.Sprintf("Decimal.add: a block that truncates the %s operand sets the sticky flag to %+d; the exact value then lies on the wrong side of the computed one (must be %+d: dropping digits of the first operand makes the true result larger in magnitude, of the second smaller)", []string{"first", "second"}[opnd], v, want), "C01", "C19")
 		}
 	}
 	ast.Inspect(fd.Body, func(nd ast.Node) bool {
@@ -642,7 +642,7 @@ func rulePolarity(c *Ctx) {
 		return true
 	})
 	if n < 12 {
-		c.undecided("polarity.count", fd, fmt.Sprintf("only %d sticky constants in truncation blocks found", n), "C01")
+		c.undecided("polarity.count", fd, fmt.Sprintf("only %d sticky constants in truncation blocks found", n), "C01", "C19")
 	}
 	// normalisation and negation
 	env := p.newCanonEnv(fd)
@@ -695,8 +695,8 @@ func rulePolarity(c *Ctx) {
 		}
 		return true
 	})
-	c.check(foundNorm, "polarity.norm", fd, "same-sign sum: sticky -1 becomes +1", "Decimal.add: when the coefficients are added (same effective sign) a negative sticky flag must be normalised to +1: both truncations make the true magnitude larger", "C01")
-	c.check(foundNeg, "polarity.borrow", fd, "borrow: magnitude, sign and sticky are all negated", "Decimal.add: on a borrow the difference is negated; the result sign and the sticky flag must be negated with it", "C01")
+	c.check(foundNorm, "polarity.norm", fd, "same-sign sum: sticky -1 becomes +1", "Decimal.add: when the coefficients are added (same effective sign) a negative sticky flag must be normalised to +1: both truncations make the true magnitude larger", "C01", "C19")
+	c.check(foundNeg, "polarity.borrow", fd, "borrow: magnitude, sign and sticky are all negated", "Decimal.add: on a borrow the difference is negated; the result sign and the sticky flag must be negated with it", "C01", "C19")
 }
 
 // ruleComposeExact: Compose is exact-or-error: every remainder is tested
